@@ -382,7 +382,7 @@ def run_c08(tape, tier, res):
             res.violate("C08", problem[0], problem[1], key=problem[2])
             break
     if t.chance(1, 3) and not res.violations:
-        session_refused(res, flags, wr, rdir, spec)
+        session_refused(res, flags, wr, rdir, spec, empty_uuid=t.chance(1, 3))
     res.stats["preterminals_in_U"] += n
     prob_count = collections.Counter(e["prob"] for e in U)
     ties = sum(1 for c in prob_count.values() if c >= 2)
@@ -391,8 +391,14 @@ def run_c08(tape, tier, res):
     res.digest = digest_of([[(e["pt"], e["prob"]) for e in U], shapes, [v.as_dict() for v in res.violations]])
 
 
-def session_refused(res, flags, wr, rdir, spec):
+def session_refused(res, flags, wr, rdir, spec, empty_uuid=False):
     clean_sessions(wr)
+    if empty_uuid:
+        # a ruleset put together by hand: its config.ini has "uuid =" with nothing after it
+        spec = dict(spec, uuid="")
+        shutil.rmtree(rdir)
+        worlds.write_ruleset(spec, rdir)
+        res.faults["ruleset_with_empty_uuid"] += 1
     r = run_cycle(flags, load=False, trigger=("pop", 2))
     if not r.ctx.fired:
         return
